@@ -443,3 +443,6 @@ Proof.
       apply (seg_then_simple ONull 0 1 st st1 m LH h h (h + 1));
         [exact S|lia|exact (fr_inv _ _ _ F1)|exact (fr_wf _ _ _ F1)|reflexivity|lia|reflexivity].
 Qed.
+
+Print Assumptions stmts_sspec.
+Print Assumptions bv_seg.
